@@ -228,11 +228,17 @@ where
             && (peq[last_block + 1].peq[a as usize] & T::one() == T::one() || carry < 0)
         {
             last_block += 1;
+            #[cfg(feature = "verif-hooks")]
+            crate::verif::hit("myers_long.block_add");
             self.add_state(-carry);
             advance_block(&mut self.states[last_block], &peq[last_block], a, carry);
         } else {
             while last_block > 0 && self.states[last_block].dist >= max_dist + w {
                 last_block -= 1;
+            }
+            #[cfg(feature = "verif-hooks")]
+            if last_block + 1 < self.states.len() {
+                crate::verif::hit("myers_long.block_drop");
             }
             self.states.truncate(last_block + 1);
         }
